@@ -238,6 +238,10 @@ func (c *Config) cert(hostname string) (*tls.Certificate, error) {
 	host, _, err := net.SplitHostPort(hostname)
 	if err == nil {
 		hostname = host
+	} else if n := len(hostname); n > 2 && hostname[0] == '[' && hostname[n-1] == ']' {
+		// An IPv6 literal without a port is still written in brackets in an
+		// authority ("[::1]"); the certificate is for the address itself.
+		hostname = hostname[1 : n-1]
 	}
 
 	// Without SNI and without a fallback host there is no name to issue a
